@@ -7,7 +7,7 @@ KANI_FILES = {
     "tensor": ["libm.rs"],
     "activation": ["activation.rs"],
     "objective": ["objective.rs"],
-    "network": ["layers.rs"],
+    "network": ["layers.rs", "network.rs"],
     "maxpool": ["maxpool.rs"],
     "convolution": ["convolution.rs"],
     "deconvolution": ["deconvolution.rs"],
@@ -15,7 +15,7 @@ KANI_FILES = {
 
 # module -> native replay/search file(s) under contracts/native appended to that module's mirror (cfg verif_replay)
 NATIVE_FILES = {
-    "network": ["layers.rs"],
+    "network": ["layers.rs", "network.rs"],
     "maxpool": ["maxpool.rs"],
     "convolution": ["convolution.rs"],
     "deconvolution": ["deconvolution.rs"],
@@ -71,6 +71,14 @@ PLAN = {
             "soft-max shift invariance under rounding (holds for the real-number formula exp(v_i-m)/sum, which the units establish; "
             "floating-point (v+c)-max(v+c) need not equal v-max(v))",
             "soft-max for vector lengths above the stated bound"],
+    ),
+    "C13": dict(
+        title="Early stopping and the returned histories obey their contract",
+        level="model_checking",
+        verus=[],
+        kani=True,
+        undecided_clauses=["epoch budgets above 6 and tolerances above 5 (one harness instance per concrete (epochs, tolerance); symbolic bounds run CBMC out of memory)",
+                           "that validate() is called exactly once per epoch with the given data is read off the slice, not proved"],
     ),
     "C18": dict(
         title="The random generator stays in range and shuffling is a safe permutation",
@@ -157,6 +165,16 @@ MANIFEST_TEXT = {
              "(backward = textbook derivative of forward). Soft-max is bounded in vector length.",
         note="libm contracts (F2) assumed; F1 uninterpreted floats in Verus; derivative table is mathematics (F3); iterator chains "
              "covered for singleton/small shapes only; soft-max bounded n<=3; shift invariance under rounding undecided.",
+    ),
+    "C13": dict(
+        category="model_checking",
+        technique="Kani bounded model checking of a mechanical slice of Network::learn (early-stopping block verbatim, validate() as oracle)",
+        design_ref="DESIGN.md §5 C13",
+        text="Bounded, exhaustive within the bound: learn() is cut mechanically (tools/mirror.py //@slice, with a non-interference scan of "
+             "every dropped statement) to the statements that touch the histories, the epoch counter and the threshold; CBMC then explores ALL "
+             "non-NaN validation-loss trajectories for each concrete (epochs <= 6, tolerance <= 5) instance and checks the three clauses of the "
+             "property against a predicate written from the statement. Not a proof for all epoch budgets.",
+        note="bounded in epochs/tolerance; the dropped batch loop and print blocks are assumed not to interfere (syntactic scan); validate() is an oracle.",
     ),
     "C18": dict(
         category="proof",
